@@ -110,6 +110,14 @@ def grid():
                 yield {'kind': 'set', 'n': n, 'v': v, 'off': off, 'suffix': suffix, 'prefix': prefix,
                        'w': [['bin', prefix], ['u', n, filler], ['bin', suffix], pad_op(total2), ['set', v, n, off]],
                        'r': [['bin', off], ['u', n], ['bin', len(suffix)]]}
+            # in-place overwrite with a value that does not fit (too large by one / by much, negative): refused, stream untouched
+            for bad in (2 ** n, 2 ** n + 1, 2 ** (n + 3) + 5, -1, -2, -(2 ** (n - 1)), -(2 ** n)):
+                filler = (bad * 5 + 1) % (2 ** n)
+                suffix = '1101001'[: (off * 3) % 7 + 1]
+                total2 = off + n + len(suffix)
+                yield {'kind': 'set-unfit', 'n': n, 'v': bad, 'off': off, 'suffix': suffix, 'prefix': prefix, 'filler': filler,
+                       'w': [['bin', prefix], ['u', n, filler], ['bin', suffix], pad_op(total2), ['set', bad, n, off]],
+                       'r': [['bin', off], ['u', n], ['bin', len(suffix)]]}
             # sign-magnitude
             mags = sorted({0, 1, 2 ** (n - 2), 2 ** (n - 1) - 2, 2 ** (n - 1) - 1} & set(range(0, max(1, 2 ** (n - 1))))) if 2 <= n < 20 else (
                 [0, 1, 2 ** (n - 2), 2 ** (n - 1) - 2, 2 ** (n - 1) - 1] if n >= 20 else [0, 1])
@@ -142,6 +150,9 @@ def oracle_grid(case, out):
             return 'signed read back %r, expected %r' % (out['r'], v)
         if out['bits'][off:off + n] != ('1' if v < 0 else '0') + binstr(abs(v), n - 1):
             return 'signed field is not sign bit + magnitude'
+    elif k == 'set-unfit':
+        if not (out['w'] and isinstance(out['w'][-1], str)):
+            return 'overwrite with the unfit value %d (width %d) was accepted; field now reads %s' % (v, n, out['bits'][off:off + n])
     elif k == 'set':
         total = off + n + len(case['suffix'])
         total += (-total) % 8
@@ -199,7 +210,8 @@ def random_program(rng, malformed=False):
     for op in w:
         if op[0] == 'u' and op[1] > 0 and rng.random() < 0.3:
             n = op[1]
-            sets.append(['set', rng.choice([0, 2 ** n - 1, rng.randrange(2 ** n)]) if not (malformed and rng.random() < 0.3) else 2 ** n + 1, n, p])
+            sets.append(['set', rng.choice([0, 2 ** n - 1, rng.randrange(2 ** n)]) if not (malformed and rng.random() < 0.3)
+                         else rng.choice([2 ** n + 1, 2 ** n, -1, -rng.randrange(1, 2 ** n + 1), -(2 ** (n - 1))]), n, p])
         p += {'u': lambda o: o[1], 'i': lambda o: o[1], 'b': lambda o: 1, 'bin': lambda o: len(o[1]),
               'bytes': lambda o: 8 * o[1], 'skip': lambda o: o[1]}[op[0]](op)
     w.append(pad_op(pos))
@@ -250,7 +262,7 @@ def oracle_malformed(prog, out):
         unfit = ((k == 'u' and (op[1] == 0 or op[2] < 0 or op[2] >= 2 ** op[1])) or
                  (k == 'i' and (op[1] < 2 or abs(op[2]) >= 2 ** (op[1] - 1))) or
                  (k == 'skip' and op[1] == 0) or
-                 (k == 'set' and (op[2] == 0 or op[1] >= 2 ** op[2])))
+                 (k == 'set' and (op[2] == 0 or op[1] < 0 or op[1] >= 2 ** op[2])))
         if unfit:
             if len(out['w']) != i + 1 or not isinstance(out['w'][i], str):
                 return 'unfit value/width accepted by write op %d %r' % (i, op)
